@@ -259,7 +259,7 @@ fn frame_ac12(tc: u8, code: u16, rng: &mut SplitMix) -> Vec<u8> {
 }
 
 pub fn run(ctx: &Ctx) {
-    ctx.set_rule("exhaustive enumeration: every 13-bit AC code with M=0 through DF0/4/16/20 frames, every 12-bit ME altitude code through TC 9-18 and 20-22 frames, every 16-bit gray2alt argument, every 13-bit decode_id13 argument; remaining frame bits from a seeded stream. Every code is a non-trivial case; distinct = distinct (kind, carrier, code).");
+    ctx.set_rule("exhaustive enumeration: every 13-bit AC code with M=0 through DF0/4/16/20 frames, every 12-bit ME altitude code through TC 9-18 and 20-22 frames, every 16-bit gray2alt argument, every 13-bit decode_id13 argument; remaining frame bits from a seeded stream; then every code once more right after each neighbour one bit (13/12-bit fields and thorough: also two bits) away, on one thread. Every code is a non-trivial case; distinct = distinct (kind, carrier, code).");
     ctx.assume("independent Gillham encoder (reflected Gray D2..B4 + 5-cycle C code) is the standard's table; checked against published table points in unit tests");
     ctx.assume("0 ft in the 12-bit field may be reported as 0 or as unavailable (unsigned convention cannot distinguish)");
     let t = tables();
@@ -365,7 +365,76 @@ pub fn run(ctx: &Ctx) {
         }
     }
     ctx.sample(json!({"kind": "id13", "arg": enc::id13(7, 7, 0, 0), "decoded": format!("{:04x}", decode_id13(enc::id13(7, 7, 0, 0)))}));
+
+    // --- the same tables again with every code decoded right after each of its neighbours one bit (and two bits)
+    //     away, on this one thread: what a code means may not depend on the code decoded before it (an ascending
+    //     sweep never puts two codes that differ in one high bit next to each other)
+    let mut n_adj = 0u64;
+    let two = ctx.tier.pick(false, true);
+    'adj: for bits in [13u32, 12, 16, 14] {
+        let mut masks: Vec<u16> = (0..bits).map(|b| 1u16 << b).collect();
+        if two || bits <= 13 {
+            for a in 0..bits {
+                for b in a + 1..bits {
+                    masks.push((1u16 << a) | (1u16 << b));
+                }
+            }
+        }
+        for m in masks {
+            let top = if bits == 16 { u16::MAX } else { (1u16 << bits) - 1 };
+            for code in 0..=top {
+                let pair = [code, code ^ m];
+                let r = match bits {
+                    13 => check_seq(&t, "ac13", &pair),
+                    12 => check_seq(&t, "ac12", &pair),
+                    16 => check_seq(&t, "gray2alt", &pair),
+                    _ => check_seq(&t, "id13", &[code & 0x1fff, (code ^ m) & 0x1fff]),
+                };
+                n_adj += 2;
+                if !ctx.judge(r) {
+                    break 'adj;
+                }
+            }
+        }
+    }
+    ctx.evals(n_adj);
+    ctx.class_n("codes decoded right after a neighbour one or two bits away", n_adj);
     ctx.exhaustive.store(true, std::sync::atomic::Ordering::Relaxed);
+}
+
+/// Decode a short sequence of codes of one kind, in order, on this thread; each must decode per the standard.
+pub fn check_seq(t: &Tables, kind: &str, codes: &[u16]) -> Check {
+    let mut rng = SplitMix::new(h64(&(kind, codes)));
+    for (i, &code) in codes.iter().enumerate() {
+        let r = match kind {
+            "ac13" => {
+                if code & 0x40 != 0 {
+                    // metric codes are outside the property, but they are still decoded here: they are history too
+                    let _ = decoded_ac13(&frame_ac13(4, code, &mut rng));
+                    continue;
+                }
+                let df = [4u8, 0, 16, 20][(code as usize + i) % 4];
+                let f = frame_ac13(df, code, &mut rng);
+                check_ac13(t, df, code, &f)
+            }
+            "ac12" => {
+                let tc = TCS[(code as usize + i) % TCS.len()];
+                let f = frame_ac12(tc, code, &mut rng);
+                check_ac12(t, tc, code, &f, None)
+            }
+            "gray2alt" => check_gray2alt(t, code),
+            _ => check_id13(code),
+        };
+        if let Err(mut e) = r {
+            if i > 0 {
+                e.signature = format!("{}:after-another-code", e.signature);
+                e.detail = format!("{} (decoded right after code {:#06x})", e.detail, codes[i - 1]);
+                e.replay = json!({"kind": "sequence", "of": kind, "codes": codes});
+            }
+            return Err(e);
+        }
+    }
+    Ok(())
 }
 
 pub fn replay(ctx: &Ctx, v: &Value) {
@@ -387,6 +456,10 @@ pub fn replay(ctx: &Ctx, v: &Value) {
             let c13 = ac12_to_ac13(code);
             let same = decoded_ac13(&frame_ac13(4, c13, &mut rng)).ok().map(|x| x.0);
             check_ac12(&t, tc, code, &f, same)
+        }
+        "sequence" => {
+            let codes: Vec<u16> = v["codes"].as_array().map(|a| a.iter().map(|x| x.as_u64().unwrap_or(0) as u16).collect()).unwrap_or_default();
+            check_seq(&t, v["of"].as_str().unwrap_or("ac13"), &codes)
         }
         "gray2alt" => check_gray2alt(&t, v["arg"].as_u64().unwrap_or(0) as u16),
         "id13" => check_id13(v["arg"].as_u64().unwrap_or(0) as u16),
